@@ -180,6 +180,42 @@ def stepClauses (op : String) (_j : Json) (pre post : Core) (msgs : List Json) :
         | none => none
         | some pn => n.available.findSome? (fun (k, v) =>
             if v < 0 && v < Res.getD pn.available k then some s!"C01.available-negative-unforced {n.id}/{k} {Res.getD pn.available k} → {v}" else none)),
+    -- C06: after the shim confirms a swap the placeholder is gone and node and queue usage reflect the real allocation:
+    -- every queue of the application's path moves by exactly (real − placeholder), the placeholder's node loses the
+    -- placeholder (and, for a swap on the same node, gains the real allocation), the application lists the real one
+    fun _ => if !(op == "release" && (jStr (fldD _j "type" (.str ""))).toOption.getD "" == "PLACEHOLDER_REPLACED") then none else
+      let app := (jStr (fldD _j "app" (.str ""))).toOption.getD ""
+      let pk := (jStr (fldD _j "key" (.str ""))).toOption.getD ""
+      match pre.findApp app with
+      | none => none
+      | some a =>
+        -- (an application that terminates with this confirmation leaves its queue: its usage goes with it)
+        if !a.live || !((post.findApp app).map (·.live)).getD false then none else
+        match a.items.find? (fun i => i.key == pk && i.bound && i.ph) with
+        | none => none
+        | some ph =>
+          match ph.release.bind (fun rk => a.items.find? (fun i => i.key == rk && i.inflightReal)) with
+          | none => none
+          | some real =>
+            -- (the known classes I7r/I7o: the real half was dropped meanwhile — judged by the C03 clauses)
+            if !(newAllocs.any (fun m => s m "key" == real.key)) then none else
+            let qbad := (pathChain pre a.queue).findSome? (fun qp =>
+              match pre.findQueue qp, post.findQueue qp with
+              | some q0, some q1 =>
+                if sparseEq q1.allocated (addX (subX q0.allocated ph.res) real.res) then none
+                else some s!"C06.swap-queue-usage {qp} before={showRes q0.allocated} placeholder={showRes ph.res} real={showRes real.res} after={showRes q1.allocated}"
+              | _, _ => none)
+            let nbad := match pre.findNode ph.node, post.findNode ph.node with
+              | some n0, some n1 =>
+                let want := if real.node == ph.node then addX (subX n0.allocated ph.res) real.res else subX n0.allocated ph.res
+                if sparseEq n1.allocated want then none
+                else some s!"C06.swap-node-usage {ph.node} before={showRes n0.allocated} after={showRes n1.allocated}"
+              | _, _ => none
+            let abad := match post.findApp app with
+              | some a1 => if a1.items.any (fun i => i.key == pk && i.bound) then some s!"C06.swap-placeholder-still-bound {pk}"
+                           else if !(a1.items.any (fun i => i.key == real.key && i.bound)) then some s!"C06.swap-real-not-bound {real.key}" else none
+              | none => none
+            qbad.orElse (fun _ => nbad.orElse (fun _ => abad)),
     -- C02: a scheduling cycle creates no new over-max usage
     fun _ => if op != "schedule" then none else
       post.queues.findSome? (fun q => match pre.findQueue q.path with
